@@ -4,6 +4,7 @@ import Driver.C13
 import Driver.Meta
 import Driver.HH
 import Driver.C15
+import Driver.C12
 
 /-- one line in, one line out; the handler may carry state -/
 structure Handler where
@@ -15,6 +16,7 @@ def stateless (f : String → String) : Handler := ⟨Unit, (), fun _ l => ((), 
 
 def handlers : List (String × Handler) := [
   ("c03", stateless Driver.C03.handle),
+  ("c12", stateless Driver.C12.handle),
   ("c13", stateless Driver.C13.handle),
   ("c15", stateless Driver.C15.handle),
   ("meta", ⟨Driver.MetaD.St, {}, Driver.MetaD.step⟩),
